@@ -179,7 +179,7 @@ def sync_cases(draw, name, long=False):
 
 
 @st.composite
-def huge_cases(draw, name):
+def huge_cases(draw, name, optional=None):
     """inputs beyond any plausible 'this is big, hand it to a worker' threshold (2**16, 10**5)"""
     n_items = draw(st.sampled_from([2 ** 16 + 3, 100_003]))
     tool = TOOLS[name]
@@ -195,7 +195,7 @@ def huge_cases(draw, name):
     for role, _kind in tool.roles:
         fns[role] = {"kind": "ident" if role != "pred" else "table", "table": [["b", True]], "fl": "def", "susp": 0,
                      "fault": None}
-    if tool.optional_roles and draw(st.booleans()):
+    if tool.optional_roles and (draw(st.booleans()) if optional is None else optional):
         role = tool.optional_roles[0][0]
         fns[role] = {"kind": "ident" if role == "key" else "table", "table": [["b", True]], "fl": "def", "susp": 0,
                      "fault": None}
@@ -745,8 +745,12 @@ def shards(tier):
                          strategy=with_real_loop(strat(tier)), n=150, nontrivial=lambda c: False, thorough_mult=15))
     out += [Shard(f"sync-long-{name}", check_sync, strategy=sync_cases(name, long=True), n=25,
                   nontrivial=lambda c: True, thorough_mult=10) for name in ALL]
-    out += [Shard(f"sync-huge-{name}", check_sync, strategy=huge_cases(name).map(lambda c: dict(c, real_loop=True)), n=2,
-                  nontrivial=lambda c: True, thorough_mult=2) for name in HUGE if name in TOOLS]
+    out += [Shard(f"sync-huge-{name}", check_sync, strategy=huge_cases(name, False).map(lambda c: dict(c, real_loop=True)),
+                  n=2, nontrivial=lambda c: True, thorough_mult=2) for name in HUGE if name in TOOLS]
+    # ... and with the optional callable (key / predicate / function) given: other code paths, same promise
+    out += [Shard(f"sync-huge-{name}-fn", check_sync, strategy=huge_cases(name, True).map(lambda c: dict(c, real_loop=True)),
+                  n=2, nontrivial=lambda c: True, thorough_mult=2)
+            for name in HUGE if name in TOOLS and TOOLS[name].optional_roles]
     out.append(Shard("tee-concurrent-close", check_tee_close, strategy=tee_close_cases(), n=400,
                      nontrivial=lambda c: True, thorough_mult=10))
     out.append(Shard("tee-nolock", check_tee_nolock, strategy=tee_nolock_cases(), n=300,
